@@ -47,7 +47,7 @@ Definition fetch_flow_collection_start (seq : bool) : M unit :=
   allow_simple_key ;;;
   start <- mark ;;
   skip_non_blank ops ;;;
-  (if seq then modify (fun s => set_ifms (ImPossible :: sc_ifms s) s) else modify (set_fms true)) ;;;
+  modify (fun s => set_ifms ((if seq then ImPossible else ImMapping) :: sc_ifms s) s) ;;;
   skip_ws_to_eol ops F SkipYes ;;;
   m <- mark ;; push_tok (spn start m, if seq then TFlowSequenceStart else TFlowMappingStart).
 
@@ -55,7 +55,8 @@ Definition fetch_flow_collection_end (seq : bool) : M unit :=
   remove_simple_key ;;;
   decrease_flow_level ;;;
   disallow_simple_key ;;;
-  (if seq then m <- mark ;; end_implicit_mapping m ;;; modify (fun s => set_ifms (tl (sc_ifms s)) s) else ret tt) ;;;
+  (if seq then m <- mark ;; end_implicit_mapping m else ret tt) ;;;
+  modify (fun s => set_ifms (tl (sc_ifms s)) s) ;;;
   start <- mark ;;
   skip_non_blank ops ;;;
   skip_ws_to_eol ops F SkipYes ;;;
@@ -117,7 +118,9 @@ Definition fetch_key : M unit :=
   (if sc_flow_level s =? 0 then
      if negb (sc_ska s) then fail 95 (sc_mark s)
      else roll_indent (m_col start) None TBlockMappingStart start
-   else modify (set_fms true)) ;;;
+   else modify (fun s => match sc_ifms s with
+                         | ImPossible :: r => set_ifms (ImInsideExplicitKey :: r) s
+                         | _ => s end)) ;;;
   remove_simple_key ;;;
   (if sc_flow_level s =? 0 then allow_simple_key else disallow_simple_key) ;;;
   skip_non_blank ops ;;;
@@ -130,7 +133,7 @@ Definition fetch_value : M unit :=
   s <- get ;;
   sk <- (match sc_sks s with [] => panic 117 | k :: _ => ret k end) ;;
   let start := sc_mark s in
-  let is_ifm := (match sc_ifms s with [] => false | _ => true end) && negb (sc_fms s) in
+  let is_ifm := (match sc_ifms s with ImPossible :: _ | ImInside :: _ => true | _ => false end) in
   (if is_ifm then modify (fun s => set_ifms (ImInside :: tl (sc_ifms s)) s) else ret tt) ;;;
   skip_non_blank ops ;;;
   c <- look_ch ops ;;
